@@ -21,6 +21,7 @@ type Frame struct {
 	defers   []deferred
 	contract *FuncContract
 	inCut    map[int]bool // loop headers currently cut (after havoc) in this frame
+	iters    map[ssa.Value]*Term // visited-key sets of map range iterators
 }
 
 type deferred struct {
@@ -43,6 +44,10 @@ func (f *Frame) clone() *Frame {
 		n.inCut[k] = v
 	}
 	n.defers = append([]deferred{}, f.defers...)
+	n.iters = make(map[ssa.Value]*Term, len(f.iters))
+	for k, v := range f.iters {
+		n.iters[k] = v
+	}
 	return &n
 }
 
@@ -94,6 +99,11 @@ func (st *State) top() *Frame { return st.stack[len(st.stack)-1] }
 
 func (st *State) assume(t *Term) {
 	if t == True {
+		return
+	}
+	if t.bound {
+		// produced while evaluating under a quantifier (e.g. well-formedness of a value read at a
+		// bound index): it mentions a bound variable and cannot be a path assumption; drop it (sound).
 		return
 	}
 	if t.op == "and" {
